@@ -44,20 +44,42 @@ def validatefirst(run, fx):
         import re as _re
         m = _re.search(r'_utf_iterator<([^>]*)>', fn.qt)
         tag = m.group(1) if m else fn.qt[-30:]
-        # region with a buffer end: blocks dominated by the fact last != 0
+        # every decode: either no buffer end was given (last == 0 on the path), or the tail validation succeeded AND the iterator was
+        # compared with `last` since it last moved
         decodes = [e for _, e in fn.elements() if e['k'] == 'CXXMemberCallExpr' and 'reference::operator' in (e.get('fq') or '')]
-        bounded = [e for e in decodes if any('last' in f[0] and f[1] == '!=' and f[2] == '0' for f in dom.facts_at(fn, e['i']))]
-        if not bounded:
-            run.broken('VALIDATEFIRST', 'count<%s> bounded loop' % tag, 'no decode found under `last != 0`', fn.where())
+        if not decodes:
+            run.broken('VALIDATEFIRST', 'count<%s> decodes' % tag, 'no decode found', fn.where())
             continue
-        for e in bounded:
+        incs_ = [e for _, e in fn.elements() if e['k'] == 'CXXOperatorCallExpr' and (e.get('fq') or '').endswith('::operator++')]
+        is_nolast = lambda f: f[0].startswith('last') and 'operator!=' not in f[0] and 'operator==' not in f[0] and 'validate' not in f[0] and f[1] == '==' and f[2] == '0'
+        is_valid = lambda f: 'validate(last)' in f[0] and f[1] == '!=' and f[2] == '0'
+        is_notend = lambda f: 'operator!=' in f[0] and 'last' in f[0] and f[1] == '!=' and f[2] == '0'
+        nbounded = 0
+        for e in decodes:
+            eb = fn.block_of[e['i']]
             inst = 'count<%s> decode@%s' % (tag, e['ln'])
-            ok = any('validate(last)' in f[0] and f[1] == '!=' and f[2] == '0' for f in dom.facts_at(fn, e['i']))
-            if ok:
-                run.held('VALIDATEFIRST', inst, fn.loc(e), 'decode dominated by first.validate(last) succeeding')
-            else:
+            fs = dom.facts_at(fn, e['i'])
+            if any(is_nolast(f) for f in fs):
+                run.held('VALIDATEFIRST', inst, fn.loc(e), 'no buffer end on this path (last == 0): NUL-terminated text', False)
+                continue
+            nbounded += 1
+            okv = dom.must_pass(fn, fn.entry, eb, lambda f: is_valid(f) or is_nolast(f), start_after=False)
+            oke_ = dom.must_pass(fn, fn.entry, eb, lambda f: is_notend(f) or is_nolast(f), start_after=False)
+            for i_ in incs_:
+                ib = fn.block_of[i_['i']]
+                if eb in fn.reachable_from(ib) and ib != eb:
+                    oke_ = oke_ and dom.must_pass(fn, ib, eb, lambda f: is_notend(f) or is_nolast(f), start_after=True)
+            if okv and oke_:
+                run.held('VALIDATEFIRST', inst, fn.loc(e), 'with a buffer end: decode only after first.validate(last) succeeded and first != last was tested since the last advance')
+            elif not okv:
                 run.violated('VALIDATEFIRST', inst, fn.loc(e), 'with a buffer end the text is decoded without `first.validate(last)` having succeeded on every path: '
-                             'a buffer ending in a truncated multi-unit sequence is read beyond buffer_end', {'facts': [f[:3] for f in dom.facts_at(fn, e['i'])]})
+                             'a buffer ending in a truncated multi-unit sequence is read beyond buffer_end', {'facts': [f[:3] for f in fs]})
+            else:
+                run.violated('VALIDATEFIRST', inst, fn.loc(e), 'with a buffer end a character is decoded before the iterator was compared with `last`: one sequence is '
+                             'read at buffer_end (out of bounds), and ill-formed bytes there are reported as an error of well-formed text', {'facts': [f[:3] for f in fs]})
+        if nbounded == 0:
+            run.broken('VALIDATEFIRST', 'count<%s> bounded loop' % tag, 'no decode that can run with a buffer end was found', fn.where())
+            continue
         # failure of validate returns 0 and sets *error = last - 1
         rets0 = [e for _, e in fn.elements() if e['k'] == 'ReturnStmt' and fn.strip_all_casts(e['c'][0]).get('v') == 0]
         okr = False
@@ -83,7 +105,7 @@ def validatefirst(run, fx):
         nb = 0
         for e in incs:
             fs = [f[:3] for f in dom.facts_at(fn, e['i'])]
-            bounded_region = any('last' in f[0] and f[1] == '!=' and f[2] == '0' and 'operator' not in f[0] for f in fs)
+            bounded_region = not any(f[0].startswith('last') and 'operator!=' not in f[0] and 'operator==' not in f[0] and f[1] == '==' and f[2] == '0' for f in fs)
             has_nul = any('usv' in f[0] and f[1] == '!=' and f[2] == '0' for f in fs)
             has_err = any('first.error()' in f[0] and f[1] == '==' and f[2] == '0' for f in fs)
             has_end = any('operator!=' in f[0] and 'last' in f[0] and f[1] == '!=' and f[2] == '0' for f in fs)
